@@ -18,7 +18,7 @@ pub fn prop() -> Prop {
         max_len: 700,
         quick: 120_000,
         thorough: 2_000_000,
-        rule: "choice sequence -> envelope with every subject case (leaf, known value, wrapped, assertion, node, already compressed, elided, encrypted) carrying a payload of a generated class (highly compressible 200-2000 B text, incompressible random bytes stored raw, empty string, tiny) x {compress, compress_subject} x {uncompress, uncompress_subject}, twice-compress, a compressed element used as the subject of further assertions and then uncompressed; faults: Compressed::from_uncompressed_data(bytes(A), digest(B)) for A != B, and CBOR surgery on a valid compressed element (bit flip in the data / checksum, size field changed, data truncated, digest bit flip), bare and as subject of a node. oracle: the compressed form has the specification digest and the harness-predicted bytes; uncompress(compress(e)) is byte-identical and is_identical_to e; compress twice is byte-identical; uncompress_subject(C + assertions) equals the model node Node(e, assertions) with the digest unchanged; every fault gives Err or an envelope whose harness-recomputed digest equals the declared digest — never another envelope, never a panic. non-trivial: subject is not a plain leaf, or a fault case decoded; distinct by FNV-64 of (encoding, payload class); Compress action on a random inner element: that element must come out COMPRESSED, none with its digest left uncompressed, and uncompress to the original; a fault answered with Ok and the unchanged, still compressed envelope is a failure",
+        rule: "choice sequence -> envelope with every subject case (leaf, known value, wrapped, assertion, node, already compressed, elided, encrypted) carrying a payload of a generated class (highly compressible 200-2000 B text, incompressible random bytes stored raw, empty string, tiny) x {compress, compress_subject} x {uncompress, uncompress_subject}, twice-compress, a compressed element used as the subject of further assertions and then uncompressed; faults: Compressed::from_uncompressed_data(bytes(A), digest(B)) for A != B, and CBOR surgery on a valid compressed element (bit flip in the data / checksum, size field changed, data truncated, digest bit flip), bare and as subject of a node. oracle: the compressed form has the specification digest and the harness-predicted bytes; uncompress(compress(e)) is byte-identical and is_identical_to e; compress twice is byte-identical; uncompress_subject(C + assertions) equals the model node Node(e, assertions) with the digest unchanged; every fault gives Err or an envelope whose harness-recomputed digest equals the declared digest — never another envelope, never a panic. non-trivial: subject is not a plain leaf, or a fault case decoded; distinct by FNV-64 of (encoding, payload class); Compress action on a random inner element: that element must come out COMPRESSED, none with its digest left uncompressed, and uncompress to the original; a fault answered with Ok and the unchanged, still compressed envelope is a failure; one case in 300 compresses more than a megabyte of one repeated byte",
         assumptions: &["a fault is allowed to leave the content intact (e.g. a changed size field): Err is not demanded, only 'never a different envelope'", "miniz deflate/inflate are correct"],
         extra: None,
     }
